@@ -179,6 +179,25 @@ class CallMixin:
             t = TupleV(vals)
             t.names = list(fv.fields)
             return t
+        if isinstance(fv, PartialV):
+            if fv.kind == 'partial':
+                return self.call_value(fv.fn, fv.args + list(args), {**fv.kwargs, **kwargs}, node)
+            if fv.kind == 'methodcaller' and len(args) == 1:
+                name = self.py_key(fv.fn)
+                if isinstance(name, str):
+                    return self.call_value(self.get_attr(args[0], name, node), list(fv.args), dict(fv.kwargs), node)
+            if fv.kind == 'itemgetter' and len(args) == 1 and len(fv.args) == 1:
+                return self.get_item(args[0], fv.args[0], node)
+            if fv.kind == 'attrgetter' and len(args) == 1 and len(fv.args) == 1:
+                name = self.py_key(fv.args[0])
+                if isinstance(name, str) and '.' not in name:
+                    return self.get_attr(args[0], name, node)
+            self.note_unknown(node, f'call of {fv!r}')
+            return UnkV('call')
+        if isinstance(fv, ObjV):
+            r = fv.cls.lookup('__call__')
+            if r is not None and r[0] == 'method':
+                return self.call_function(r[1], args, kwargs, self_obj=fv, node=node)
         if isinstance(fv, (SymV, UnkV)):
             self.event('call-opaque', node, callee=fv, args=args, kwargs=kwargs)
             if isinstance(fv, UnkV):
@@ -198,16 +217,18 @@ class CallMixin:
     def instantiate(self, ci, args, kwargs, node):
         if self.is_exception_class(ci):
             return self.instantiate_exc(ci, args, kwargs, node)
-        record_like = any(d.split('(')[0].endswith('dataclass') for d in ci.decorators) or \
+        nt_base = any(getattr(c, 'namedtuple_base', False) for c in ci.mro if not isinstance(c, str))
+        record_like = any(d.split('(')[0].endswith('dataclass') for d in ci.decorators) or nt_base or \
             any(isinstance(b, str) and b.endswith('NamedTuple') for b in ci.mro)
         if record_like and ci.ann_fields and (ci.lookup('__init__') is None):
             vals = list(args)
-            if any(isinstance(b, str) and b.endswith('NamedTuple') for b in ci.mro):
+            if nt_base or any(isinstance(b, str) and b.endswith('NamedTuple') for b in ci.mro):
                 for name in ci.ann_fields[len(vals):]:
                     vals.append(kwargs[name] if name in kwargs else
                                 (self.eval_in_module(ci.module, ci.attrs[name]) if name in ci.attrs else UnkV(name)))
                 t = TupleV(vals)
                 t.names = list(ci.ann_fields)
+                t.cls = ci
                 return t
             obj = ObjV(ci)
             for i, name in enumerate(ci.ann_fields):
@@ -286,6 +307,14 @@ class CallMixin:
                 return r
         elif isinstance(recv, TupleV):
             f = None
+            if name == '_replace' and getattr(recv, 'names', None) and not args and all(k in recv.names for k in kwargs):
+                t = TupleV([kwargs.get(n, x) for n, x in zip(recv.names, recv.items)])
+                t.names = list(recv.names)
+                if getattr(recv, 'cls', None) is not None:
+                    t.cls = recv.cls
+                return t
+            if name == '_asdict' and getattr(recv, 'names', None) and not args:
+                return DictV(items=dict(zip(recv.names, recv.items)))
         if f is not None:
             r = f(self, recv, args, kwargs, node)
             self.event('method', node, recv=recv, name=name, args=args, kwargs=kwargs, result=r)
@@ -690,6 +719,8 @@ def b_isinstance(it, args, kwargs, node):
         kind = 'tuple'
     elif isinstance(v, SymV) and v.kind in ('datetime', 'decimal', 'float'):
         kind = {'datetime': 'datetime.datetime', 'decimal': 'decimal.Decimal', 'float': 'float'}[v.kind]
+    elif isinstance(v, SymV) and (v.kind == 'str' or (v.choices and all(isinstance(c, str) for c in v.choices))):
+        kind = 'str'          # a symbolic selector ranging over strings
     if kind is not None:
         for n in names:
             if isinstance(n, str) and (n == kind or (kind == 'bool' and n == 'int') or
@@ -766,12 +797,16 @@ def b_enumerate(it, args, kwargs, node):
             start = sl
     elem, ln = it.iter_element(v, node)
     idx = it.fresh('idx')
-    it.store.declare(idx, None, None)
+    # constant bounds are part of the declaration (they survive as facts about the elements of derived lists)
+    lo_ = it.store.lo(start)
+    hi_ = it.store.hi(start + ln - 1) if ln is not None else None
+    it.store.declare(idx, lo_, hi_ if (hi_ is not None and lo_ is not None and hi_ >= lo_) else None)
     it.store.assume_ge0(Lin.sym(idx) - start)
     if ln is not None:
         it.store.assume_ge0(ln - 1 - (Lin.sym(idx) - start))
     r = IterV(TupleV([IntV(Lin.sym(idx)), elem]), src=v, desc='enumerate', length=ln)
     r.enum_start = start
+    it.origin[idx] = ('enumerate', start, v, elem)
     return r
 
 
